@@ -1,0 +1,661 @@
+//go:build verif
+// +build verif
+
+// Contracts for package header, read only by the verifier in /verif (build tag verif).
+// This file contains no code.
+//
+// be16(b,i), be32(b,i): big-endian words of b at offset i. Layouts are transcribed from
+// RFC 791 (IPv4), RFC 2460 (IPv6), RFC 793 (TCP), RFC 768 (UDP), RFC 792/4443 (ICMP),
+// RFC 826 (ARP) and Ethernet II, not from the code.
+
+package header
+
+// ---------------------------------------------------------------------------
+// IPv4
+
+//@ func IPVersion props C15 C07
+//@   ensures implies(len(b) >= 1, result == int(b[0] >> 4))
+//@   ensures implies(len(b) < 1, result == -1)
+
+//@ func (IPv4).HeaderLength props C15 C07
+//@   requires len(b) >= 1
+//@   ensures result == (b[0] & 0xf) * 4
+
+//@ func (IPv4).ID props C15
+//@   requires len(b) >= 6
+//@   ensures result == be16(b, 4)
+
+//@ func (IPv4).Protocol props C15
+//@   requires len(b) >= 10
+//@   ensures result == b[9]
+
+//@ func (IPv4).Flags props C15
+//@   requires len(b) >= 8
+//@   ensures result == uint8(be16(b, 6) >> 13)
+
+//@ func (IPv4).TTL props C15
+//@   requires len(b) >= 9
+//@   ensures result == b[8]
+
+//@ func (IPv4).FragmentOffset props C15
+//@   requires len(b) >= 8
+//@   ensures result == be16(b, 6) << 3
+
+//@ func (IPv4).TotalLength props C15 C07
+//@   requires len(b) >= 4
+//@   ensures result == be16(b, 2)
+
+//@ func (IPv4).Checksum props C15
+//@   requires len(b) >= 12
+//@   ensures result == be16(b, 10)
+
+//@ func (IPv4).SourceAddress props C15
+//@   requires len(b) >= 16
+//@   ensures len(result) == 4
+//@   ensures forall(k, 0, 4, result[k] == b[12+k])
+
+//@ func (IPv4).DestinationAddress props C15
+//@   requires len(b) >= 20
+//@   ensures len(result) == 4
+//@   ensures forall(k, 0, 4, result[k] == b[16+k])
+
+//@ func (IPv4).TransportProtocol props C15
+//@   requires len(b) >= 10
+//@   ensures uint8(result) == b[9]
+
+//@ func (IPv4).PayloadLength props C15
+//@   requires len(b) >= 4
+//@   ensures result == be16(b, 2) - uint16((b[0] & 0xf) * 4)
+
+//@ func (IPv4).Payload props C15 C07
+//@   requires len(b) >= 4
+//@   requires int((b[0] & 0xf) * 4) <= len(b)
+//@   requires int(be16(b, 2) - uint16((b[0] & 0xf) * 4)) <= cap(b) - int((b[0] & 0xf) * 4)
+//@   ensures arr(result) == arr(b) && off(result) == off(b) + int((b[0] & 0xf) * 4)
+//@   ensures len(result) == int(be16(b, 2) - uint16((b[0] & 0xf) * 4))
+
+//@ func (IPv4).TOS props C15
+//@   requires len(b) >= 2
+//@   ensures result1 == b[1] && result2 == 0
+
+//@ func (IPv4).SetTOS props C15
+//@   requires len(b) >= 2
+//@   ensures b[1] == v
+//@   modifies b[1]
+
+//@ func (IPv4).SetTotalLength props C15
+//@   requires len(b) >= 4
+//@   ensures be16(b, 2) == totalLength
+//@   modifies b[2], b[3]
+
+//@ func (IPv4).SetChecksum props C15
+//@   requires len(b) >= 12
+//@   ensures be16(b, 10) == v
+//@   modifies b[10], b[11]
+
+//@ func (IPv4).SetFlagsFragmentOffset props C15
+//@   requires len(b) >= 8
+//@   ensures be16(b, 6) == uint16(flags) << 13 | offset >> 3
+//@   modifies b[6], b[7]
+
+//@ func (IPv4).SetSourceAddress props C15
+//@   requires len(b) >= 16
+//@   ensures forall(k, 0, 4, implies(k < len(addr), b[12+k] == addr[k]))
+//@   ensures forall(k, 0, 4, implies(k >= len(addr), b[12+k] == old(b[12+k])))
+//@   modifies elems(b[12:16])
+
+//@ func (IPv4).SetDestinationAddress props C15
+//@   requires len(b) >= 20
+//@   ensures forall(k, 0, 4, implies(k < len(addr), b[16+k] == addr[k]))
+//@   ensures forall(k, 0, 4, implies(k >= len(addr), b[16+k] == old(b[16+k])))
+//@   modifies elems(b[16:20])
+
+//@ func (IPv4).Encode props C15
+//@   requires len(b) >= 20 && i != nil
+//@   ensures b[0] == 0x40 | ((i.IHL / 4) & 0xf)
+//@   ensures b[1] == i.TOS
+//@   ensures be16(b, 2) == i.TotalLength
+//@   ensures be16(b, 4) == i.ID
+//@   ensures be16(b, 6) == uint16(i.Flags) << 13 | i.FragmentOffset >> 3
+//@   ensures b[8] == i.TTL
+//@   ensures b[9] == i.Protocol
+//@   ensures be16(b, 10) == i.Checksum
+//@   ensures forall(k, 0, 4, implies(k < len(i.SrcAddr), b[12+k] == i.SrcAddr[k]))
+//@   ensures forall(k, 0, 4, implies(k < len(i.DstAddr), b[16+k] == i.DstAddr[k]))
+//@   modifies elems(b[0:20])
+
+//@ func (IPv4).IsValid props C15 C07
+//@   ensures implies(result, len(b) >= 20 && int((b[0] & 0xf) * 4) <= int(be16(b, 2)) && int(be16(b, 2)) <= pktSize)
+//@   ensures implies(len(b) >= 20 && int((b[0] & 0xf) * 4) <= int(be16(b, 2)) && int(be16(b, 2)) <= pktSize, result)
+
+//@ func IsV4MulticastAddress props C15
+//@   ensures result == (len(addr) == 4 && addr[0] & 0xf0 == 0xe0)
+
+// ---------------------------------------------------------------------------
+// IPv6
+
+//@ func (IPv6).PayloadLength props C15 C07
+//@   requires len(b) >= 6
+//@   ensures result == be16(b, 4)
+
+//@ func (IPv6).HopLimit props C15
+//@   requires len(b) >= 8
+//@   ensures result == b[7]
+
+//@ func (IPv6).NextHeader props C15
+//@   requires len(b) >= 7
+//@   ensures result == b[6]
+
+//@ func (IPv6).TransportProtocol props C15
+//@   requires len(b) >= 7
+//@   ensures uint8(result) == b[6]
+
+//@ func (IPv6).Payload props C15 C07
+//@   requires len(b) >= 40 && int(be16(b, 4)) <= cap(b) - 40
+//@   ensures arr(result) == arr(b) && off(result) == off(b) + 40 && len(result) == int(be16(b, 4))
+
+//@ func (IPv6).SourceAddress props C15
+//@   requires len(b) >= 24
+//@   ensures len(result) == 16
+//@   ensures forall(k, 0, 16, result[k] == b[8+k])
+
+//@ func (IPv6).DestinationAddress props C15
+//@   requires len(b) >= 40
+//@   ensures len(result) == 16
+//@   ensures forall(k, 0, 16, result[k] == b[24+k])
+
+//@ func (IPv6).TOS props C15
+//@   requires len(b) >= 4
+//@   ensures result1 == uint8(be32(b, 0) >> 20) && result2 == be32(b, 0) & 0xfffff
+
+//@ func (IPv6).SetTOS props C15
+//@   requires len(b) >= 4
+//@   ensures be32(b, 0) == 6 << 28 | uint32(t) << 20 | l & 0xfffff
+//@   modifies elems(b[0:4])
+
+//@ func (IPv6).SetPayloadLength props C15
+//@   requires len(b) >= 6
+//@   ensures be16(b, 4) == payloadLength
+//@   modifies b[4], b[5]
+
+//@ func (IPv6).SetNextHeader props C15
+//@   requires len(b) >= 7
+//@   ensures b[6] == v
+//@   modifies b[6]
+
+//@ func (IPv6).SetSourceAddress props C15
+//@   requires len(b) >= 24
+//@   ensures forall(k, 0, 16, implies(k < len(addr), b[8+k] == addr[k]))
+//@   modifies elems(b[8:24])
+
+//@ func (IPv6).SetDestinationAddress props C15
+//@   requires len(b) >= 40
+//@   ensures forall(k, 0, 16, implies(k < len(addr), b[24+k] == addr[k]))
+//@   modifies elems(b[24:40])
+
+//@ func (IPv6).Encode props C15
+//@   requires len(b) >= 40 && i != nil
+//@   ensures be32(b, 0) == 6 << 28 | uint32(i.TrafficClass) << 20 | i.FlowLabel & 0xfffff
+//@   ensures be16(b, 4) == i.PayloadLength
+//@   ensures b[6] == i.NextHeader
+//@   ensures b[7] == i.HopLimit
+//@   ensures forall(k, 0, 16, implies(k < len(i.SrcAddr), b[8+k] == i.SrcAddr[k]))
+//@   ensures forall(k, 0, 16, implies(k < len(i.DstAddr), b[24+k] == i.DstAddr[k]))
+//@   modifies elems(b[0:40])
+
+//@ func (IPv6).IsValid props C15 C07
+//@   ensures result == (len(b) >= 40 && int(be16(b, 4)) <= pktSize - 40)
+
+//@ func IsV6MulticastAddress props C15
+//@   ensures result == (len(addr) == 16 && addr[0] == 0xff)
+
+// IPv6 fragment header (RFC 2460 §4.5)
+
+//@ func (IPv6Fragment).Encode props C15
+//@   requires len(b) >= 8 && i != nil
+//@   ensures b[0] == i.NextHeader
+//@   ensures be16(b, 2) == i.FragmentOffset << 3 | ite(i.M, uint16(1), uint16(0))
+//@   ensures be32(b, 4) == i.Identification
+//@   modifies b[0], b[2], b[3], elems(b[4:8])
+
+//@ func (IPv6Fragment).IsValid props C15
+//@   ensures result == (len(b) >= 8)
+
+//@ func (IPv6Fragment).NextHeader props C15
+//@   requires len(b) >= 1
+//@   ensures result == b[0]
+
+//@ func (IPv6Fragment).FragmentOffset props C15
+//@   requires len(b) >= 4
+//@   ensures result == be16(b, 2) >> 3
+
+//@ func (IPv6Fragment).More props C15
+//@   requires len(b) >= 4
+//@   ensures result == (b[3] & 1 == 1)
+
+//@ func (IPv6Fragment).ID props C15
+//@   requires len(b) >= 8
+//@   ensures result == be32(b, 4)
+
+//@ func (IPv6Fragment).Payload props C15
+//@   requires len(b) >= 8
+//@   ensures arr(result) == arr(b) && off(result) == off(b) + 8 && len(result) == len(b) - 8
+
+// ---------------------------------------------------------------------------
+// TCP
+
+//@ func (TCP).SourcePort props C15
+//@   requires len(b) >= 2
+//@   ensures result == be16(b, 0)
+
+//@ func (TCP).DestinationPort props C15
+//@   requires len(b) >= 4
+//@   ensures result == be16(b, 2)
+
+//@ func (TCP).SequenceNumber props C15
+//@   requires len(b) >= 8
+//@   ensures result == be32(b, 4)
+
+//@ func (TCP).AckNumber props C15
+//@   requires len(b) >= 12
+//@   ensures result == be32(b, 8)
+
+//@ func (TCP).DataOffset props C15 C07
+//@   requires len(b) >= 13
+//@   ensures result == (b[12] >> 4) * 4
+
+//@ func (TCP).Flags props C15
+//@   requires len(b) >= 14
+//@   ensures result == b[13]
+
+//@ func (TCP).WindowSize props C15
+//@   requires len(b) >= 16
+//@   ensures result == be16(b, 14)
+
+//@ func (TCP).Checksum props C15
+//@   requires len(b) >= 18
+//@   ensures result == be16(b, 16)
+
+//@ func (TCP).Payload props C15 C07
+//@   requires len(b) >= 13 && int((b[12] >> 4) * 4) <= len(b)
+//@   ensures arr(result) == arr(b) && off(result) == off(b) + int((b[12] >> 4) * 4)
+//@   ensures len(result) == len(b) - int((b[12] >> 4) * 4)
+
+//@ func (TCP).Options props C15 C07
+//@   requires len(b) >= 20 && 20 <= int((b[12] >> 4) * 4) && int((b[12] >> 4) * 4) <= len(b)
+//@   ensures arr(result) == arr(b) && off(result) == off(b) + 20
+//@   ensures len(result) == int((b[12] >> 4) * 4) - 20
+
+//@ func (TCP).SetSourcePort props C15
+//@   requires len(b) >= 2
+//@   ensures be16(b, 0) == port
+//@   modifies b[0], b[1]
+
+//@ func (TCP).SetDestinationPort props C15
+//@   requires len(b) >= 4
+//@   ensures be16(b, 2) == port
+//@   modifies b[2], b[3]
+
+//@ func (TCP).SetChecksum props C15
+//@   requires len(b) >= 18
+//@   ensures be16(b, 16) == checksum
+//@   modifies b[16], b[17]
+
+//@ func (TCP).encodeSubset props C15
+//@   requires len(b) >= 16
+//@   ensures be32(b, 4) == seq && be32(b, 8) == ack && b[13] == flags && be16(b, 14) == rcvwnd
+//@   modifies elems(b[4:12]), b[13], b[14], b[15]
+
+//@ func (TCP).Encode props C15
+//@   requires len(b) >= 20 && t != nil
+//@   ensures be16(b, 0) == t.SrcPort
+//@   ensures be16(b, 2) == t.DstPort
+//@   ensures be32(b, 4) == t.SeqNum
+//@   ensures be32(b, 8) == t.AckNum
+//@   ensures b[12] == (t.DataOffset / 4) << 4
+//@   ensures b[13] == t.Flags
+//@   ensures be16(b, 14) == t.WindowSize
+//@   ensures be16(b, 16) == t.Checksum
+//@   ensures be16(b, 18) == t.UrgentPointer
+//@   modifies elems(b[0:20])
+
+// ---------------------------------------------------------------------------
+// UDP
+
+//@ func (UDP).SourcePort props C15
+//@   requires len(b) >= 2
+//@   ensures result == be16(b, 0)
+
+//@ func (UDP).DestinationPort props C15
+//@   requires len(b) >= 4
+//@   ensures result == be16(b, 2)
+
+//@ func (UDP).Length props C15 C07
+//@   requires len(b) >= 6
+//@   ensures result == be16(b, 4)
+
+//@ func (UDP).Checksum props C15
+//@   requires len(b) >= 8
+//@   ensures result == be16(b, 6)
+
+//@ func (UDP).Payload props C15
+//@   requires len(b) >= 8
+//@   ensures arr(result) == arr(b) && off(result) == off(b) + 8 && len(result) == len(b) - 8
+
+//@ func (UDP).SetSourcePort props C15
+//@   requires len(b) >= 2
+//@   ensures be16(b, 0) == port
+//@   modifies b[0], b[1]
+
+//@ func (UDP).SetDestinationPort props C15
+//@   requires len(b) >= 4
+//@   ensures be16(b, 2) == port
+//@   modifies b[2], b[3]
+
+//@ func (UDP).SetChecksum props C15
+//@   requires len(b) >= 8
+//@   ensures be16(b, 6) == checksum
+//@   modifies b[6], b[7]
+
+//@ func (UDP).Encode props C15
+//@   requires len(b) >= 8 && u != nil
+//@   ensures be16(b, 0) == u.SrcPort && be16(b, 2) == u.DstPort && be16(b, 4) == u.Length && be16(b, 6) == u.Checksum
+//@   modifies elems(b[0:8])
+
+// ---------------------------------------------------------------------------
+// ICMPv4 / ICMPv6
+
+//@ func (ICMPv4).Type props C15
+//@   requires len(b) >= 1
+//@   ensures uint8(result) == b[0]
+
+//@ func (ICMPv4).SetType props C15
+//@   requires len(b) >= 1
+//@   ensures b[0] == uint8(t)
+//@   modifies b[0]
+
+//@ func (ICMPv4).Code props C15
+//@   requires len(b) >= 2
+//@   ensures result == b[1]
+
+//@ func (ICMPv4).SetCode props C15
+//@   requires len(b) >= 2
+//@   ensures b[1] == c
+//@   modifies b[1]
+
+//@ func (ICMPv4).Checksum props C15
+//@   requires len(b) >= 4
+//@   ensures result == be16(b, 2)
+
+//@ func (ICMPv4).SetChecksum props C15
+//@   requires len(b) >= 4
+//@   ensures be16(b, 2) == checksum
+//@   modifies b[2], b[3]
+
+//@ func (ICMPv4).Payload props C15
+//@   requires len(b) >= 4
+//@   ensures arr(result) == arr(b) && off(result) == off(b) + 4 && len(result) == len(b) - 4
+
+//@ func (ICMPv6).Type props C15
+//@   requires len(b) >= 1
+//@   ensures uint8(result) == b[0]
+
+//@ func (ICMPv6).SetType props C15
+//@   requires len(b) >= 1
+//@   ensures b[0] == uint8(t)
+//@   modifies b[0]
+
+//@ func (ICMPv6).Code props C15
+//@   requires len(b) >= 2
+//@   ensures result == b[1]
+
+//@ func (ICMPv6).SetCode props C15
+//@   requires len(b) >= 2
+//@   ensures b[1] == c
+//@   modifies b[1]
+
+//@ func (ICMPv6).Checksum props C15
+//@   requires len(b) >= 4
+//@   ensures result == be16(b, 2)
+
+//@ func (ICMPv6).SetChecksum props C15
+//@   requires len(b) >= 4
+//@   ensures be16(b, 2) == checksum
+//@   modifies b[2], b[3]
+
+//@ func (ICMPv6).Payload props C15
+//@   requires len(b) >= 4
+//@   ensures arr(result) == arr(b) && off(result) == off(b) + 4 && len(result) == len(b) - 4
+
+// ---------------------------------------------------------------------------
+// ARP (RFC 826, IPv4 over Ethernet) and Ethernet II
+
+//@ func (ARP).hardwareAddressSpace props C15
+//@   requires len(a) >= 2
+//@   ensures result == be16(a, 0)
+//@ func (ARP).protocolAddressSpace props C15
+//@   requires len(a) >= 4
+//@   ensures result == be16(a, 2)
+//@ func (ARP).hardwareAddressSize props C15
+//@   requires len(a) >= 5
+//@   ensures result == int(a[4])
+//@ func (ARP).protocolAddressSize props C15
+//@   requires len(a) >= 6
+//@   ensures result == int(a[5])
+
+//@ func (ARP).Op props C15
+//@   requires len(a) >= 8
+//@   ensures uint16(result) == be16(a, 6)
+
+//@ func (ARP).SetOp props C15
+//@   requires len(a) >= 8
+//@   ensures be16(a, 6) == uint16(op)
+//@   modifies a[6], a[7]
+
+//@ func (ARP).SetIpv4OverEthernet props C15
+//@   requires len(a) >= 6
+//@   ensures be16(a, 0) == 1 && be16(a, 2) == 0x0800 && a[4] == 6 && a[5] == 4
+//@   modifies elems(a[0:6])
+
+//@ func (ARP).HardwareAddressSender props C15
+//@   requires cap(a) >= 14 && len(a) >= 8
+//@   ensures arr(result) == arr(a) && off(result) == off(a) + 8 && len(result) == 6
+
+//@ func (ARP).ProtocolAddressSender props C15
+//@   requires cap(a) >= 18 && len(a) >= 14
+//@   ensures arr(result) == arr(a) && off(result) == off(a) + 14 && len(result) == 4
+
+//@ func (ARP).HardwareAddressTarget props C15
+//@   requires cap(a) >= 24 && len(a) >= 18
+//@   ensures arr(result) == arr(a) && off(result) == off(a) + 18 && len(result) == 6
+
+//@ func (ARP).ProtocolAddressTarget props C15
+//@   requires cap(a) >= 28 && len(a) >= 24
+//@   ensures arr(result) == arr(a) && off(result) == off(a) + 24 && len(result) == 4
+
+//@ func (ARP).IsValid props C15 C07
+//@   ensures result == (len(a) >= 28 && be16(a, 0) == 1 && be16(a, 2) == 0x0800 && a[4] == 6 && a[5] == 4)
+
+//@ func (Ethernet).SourceAddress props C15
+//@   requires len(b) >= 12
+//@   ensures len(result) == 6
+//@   ensures forall(k, 0, 6, result[k] == b[6+k])
+
+//@ func (Ethernet).DestinationAddress props C15
+//@   requires len(b) >= 6
+//@   ensures len(result) == 6
+//@   ensures forall(k, 0, 6, result[k] == b[k])
+
+//@ func (Ethernet).Type props C15
+//@   requires len(b) >= 14
+//@   ensures uint16(result) == be16(b, 12)
+
+//@ func (Ethernet).Encode props C15
+//@   requires len(b) >= 14 && e != nil
+//@   ensures be16(b, 12) == uint16(e.Type)
+//@   ensures forall(k, 0, 6, implies(k < len(e.SrcAddr), b[6+k] == e.SrcAddr[k]))
+//@   ensures forall(k, 0, 6, implies(k < len(e.DstAddr), b[k] == e.DstAddr[k]))
+//@   modifies elems(b[0:14])
+
+// ---------------------------------------------------------------------------
+// Internet checksum (RFC 1071). wsum16(b, lo, hi) is the mathematical sum of the
+// big-endian 16-bit words of b[lo:hi] (a trailing odd byte is the high byte of a word);
+// oc16(x) is x mod 65535, defined by oc16(x) < 65535, oc16(x) = x for x < 65535 and the
+// periodicity axiom oc16_period(x, q): oc16(x + 65535*q) = oc16(x). A 16-bit value r
+// represents the one's-complement sum S iff oc16(r) == oc16(S) and (r == 0 iff S == 0).
+
+//@ func ChecksumCombine props C15 C06
+//@   ensures oc16(uint64(result)) == oc16(uint64(a) + uint64(b))
+//@   ensures (result == 0) == (a == 0 && b == 0)
+//@   apply oc16_period(uint64(result), 1)
+
+//@ func Checksum props C15 C06
+//@   requires len(buf) <= 65536
+//@   ensures oc16(uint64(result)) == oc16(uint64(initial) + wsum16(buf, 0, len(buf)))
+//@   ensures (result == 0) == (uint64(initial) + wsum16(buf, 0, len(buf)) == 0)
+//@   loop 1 invariant 0 <= i && i <= l && i & 1 == 0 && l & 1 == 0 && l <= len(buf) && len(buf) - l <= 1
+//@   loop 1 invariant uint64(v) == uint64(initial) + wsum16(buf, l, len(buf)) + wsum16(buf, 0, i)
+//@   apply fold32(v)
+
+// PseudoHeaderChecksum: sum of both addresses and the protocol number (the length is added
+// by the callers).
+//@ func PseudoHeaderChecksum props C15 C06
+//@   requires len(srcAddr) <= 16 && len(dstAddr) <= 16
+//@   ensures oc16(uint64(result)) == oc16(wsum16(srcAddr, 0, len(srcAddr)) + wsum16(dstAddr, 0, len(dstAddr)) + uint64(uint8(protocol)))
+
+// Folding a 32-bit accumulator into 16 bits preserves the value modulo 65535 and zero-ness:
+// v = lo + 65536*hi = (lo + hi) + 65535*hi.
+//@ lemma fold32 props C15 C06
+//@   var v uint32
+//@   apply oc16_period(uint64(uint16(v)) + uint64(uint16(v >> 16)), uint64(uint16(v >> 16)))
+//@   prove oc16(uint64(uint16(v)) + uint64(uint16(v >> 16))) == oc16(uint64(v))
+//@   prove (uint16(v) == 0 && uint16(v >> 16) == 0) == (v == 0)
+
+// ---------------------------------------------------------------------------
+// IPv6Fragment: the Network-interface methods it does not support always panic (by design;
+// nothing in the stack calls them).
+
+//@ func (IPv6Fragment).Checksum props C15
+//@   panics_when true
+//@ func (IPv6Fragment).SourceAddress props C15
+//@   panics_when true
+//@ func (IPv6Fragment).DestinationAddress props C15
+//@   panics_when true
+//@ func (IPv6Fragment).SetSourceAddress props C15
+//@   panics_when true
+//@ func (IPv6Fragment).SetDestinationAddress props C15
+//@   panics_when true
+//@ func (IPv6Fragment).SetChecksum props C15
+//@   panics_when true
+//@ func (IPv6Fragment).TOS props C15
+//@   panics_when true
+//@ func (IPv6Fragment).SetTOS props C15
+//@   panics_when true
+//@ func (IPv6Fragment).TransportProtocol props C15
+//@   requires len(b) >= 1
+//@   ensures uint8(result) == b[0]
+
+// ---------------------------------------------------------------------------
+// TCP options: parsers never read outside their input, whatever the bytes are.
+
+//@ func ParseSynOptions props C15 C07 C03
+//@   loop 1 invariant 0 <= i && limit == len(opts)
+//@   loop 1 invariant synOpts.WS >= -1 && synOpts.WS <= 14 && synOpts.MSS != 0
+//@   ensures result.WS >= -1 && result.WS <= 14
+//@   ensures result.MSS != 0
+
+//@ func ParseTCPOptions props C15 C07
+//@   loop 1 invariant 0 <= i && limit == len(b)
+//@   loop 1 invariant arr(opts.SACKBlocks) == 0 || fresh(opts.SACKBlocks)
+//@   loop 2 invariant arr(opts.SACKBlocks) == 0 || fresh(opts.SACKBlocks)
+//@   loop 2 invariant 0 <= j && 0 <= i && limit == len(b) && numBlocks == (sackOptionLen - 2) / 8
+//@   loop 2 invariant i + sackOptionLen <= limit && i + 2 <= limit && sackOptionLen == int(b[i+1])
+
+//@ func (TCP).ParsedOptions props C15 C07
+//@   requires len(b) >= 20 && 20 <= int((b[12] >> 4) * 4) && int((b[12] >> 4) * 4) <= len(b)
+
+//@ func EncodeMSSOption props C15 C06
+//@   ensures implies(len(b) < 4, result == 0)
+//@   ensures implies(len(b) >= 4, result == 4 && b[0] == 2 && b[1] == 4 && be16(b, 2) == uint16(mss))
+//@   modifies elems(b[0:imin(len(b), 4)])
+
+//@ func EncodeWSOption props C15 C06
+//@   ensures implies(len(b) < 3, result == 0)
+//@   ensures implies(len(b) >= 3, result == 3 && b[0] == 3 && b[1] == 3 && b[2] == uint8(ws))
+//@   modifies elems(b[0:imin(len(b), 3)])
+
+//@ func EncodeTSOption props C15 C06
+//@   ensures implies(len(b) < 10, result == 0)
+//@   ensures implies(len(b) >= 10, result == 10 && b[0] == 8 && b[1] == 10 && be32(b, 2) == tsVal && be32(b, 6) == tsEcr)
+//@   modifies elems(b[0:imin(len(b), 10)])
+
+//@ func EncodeSACKPermittedOption props C15 C06
+//@   ensures implies(len(b) < 2, result == 0)
+//@   ensures implies(len(b) >= 2, result == 2 && b[0] == 4 && b[1] == 2)
+//@   modifies elems(b[0:imin(len(b), 2)])
+
+//@ func EncodeNOP props C15 C06
+//@   ensures implies(len(b) == 0, result == 0)
+//@   ensures implies(len(b) > 0, result == 1 && b[0] == 1)
+//@   modifies elems(b[0:imin(len(b), 1)])
+
+//@ func EncodeSACKBlocks props C15 C06
+//@   ensures result == 0 || result == imin(imin(len(sackBlocks), 4), (len(b) - 2) / 8) * 8 + 2
+//@   ensures implies(imin(imin(len(sackBlocks), 4), (len(b) - 2) / 8) <= 0, result == 0)
+//@   ensures implies(result != 0, b[0] == 5 && int(b[1]) == result && result <= len(b))
+//@   ensures forall(j, 0, (result - 2) / 8,
+//@             be32(b, j*8+2) == uint32(sackBlocks[j].Start) && be32(b, j*8+6) == uint32(sackBlocks[j].End))
+//@   loop 1 invariant 0 <= i && i <= l && b[0] == 5 && int(b[1]) == l*8+2
+//@   loop 1 invariant forall(j, 0, i,
+//@             be32(b, j*8+2) == uint32(sackBlocks[j].Start) && be32(b, j*8+6) == uint32(sackBlocks[j].End))
+//@   modifies elems(b)
+
+//@ func AddTCPOptionPadding props C15 C06
+//@   requires 0 <= offset && offset <= len(options) - 3
+//@   ensures result == (4 - offset % 4) % 4 && (offset + result) % 4 == 0
+//@   ensures forall(k, offset, offset + result, options[k] == 1)
+//@   loop 1 invariant offset <= i && i <= offset + paddingToAdd && 0 <= paddingToAdd && paddingToAdd <= 3
+//@   loop 1 invariant forall(k, offset, i, options[k] == 1)
+//@   modifies elems(options[offset:offset+3])
+
+// ---------------------------------------------------------------------------
+// address helpers
+
+//@ func SolicitedNodeAddr props C15
+//@   requires len(addr) >= 3
+
+//@ func LinkLocalAddr props C15
+//@   requires len(linkAddr) >= 6
+//@   ensures len(result) == 16
+//@   ensures result[0] == 0xfe && result[1] == 0x80 && result[8] == linkAddr[0] ^ 2 && result[11] == 0xff && result[12] == 0xfe && result[15] == linkAddr[5]
+
+// ---------------------------------------------------------------------------
+// Incremental checksum helpers: each result represents (in the oc16 sense) the partial sum
+// it was given plus the words it covers, so they agree with one Checksum over everything.
+
+//@ func (IPv4).CalculateChecksum props C15 C06
+//@   requires len(b) >= 1 && int((b[0] & 0xf) * 4) <= cap(b)
+//@   ensures oc16(uint64(result)) == oc16(wsum16(b, 0, int((b[0] & 0xf) * 4)))
+//@   ensures (result == 0) == (wsum16(b, 0, int((b[0] & 0xf) * 4)) == 0)
+
+//@ func (IPv4).EncodePartial props C15 C06
+//@   requires len(b) >= 12
+//@   ensures be16(b, 2) == totalLength
+//@   ensures oc16(uint64(^be16(b, 10))) == oc16(uint64(partialChecksum) + uint64(totalLength))
+//@   modifies b[2], b[3], b[10], b[11]
+
+//@ func (TCP).CalculateChecksum props C15 C06
+//@   requires len(b) >= 13 && int((b[12] >> 4) * 4) <= cap(b)
+//@   ensures oc16(uint64(result)) == oc16(uint64(partialChecksum) + uint64(totalLen) + wsum16(b, 0, int((b[12] >> 4) * 4)))
+//@   ensures (result == 0) == (uint64(partialChecksum) + uint64(totalLen) + wsum16(b, 0, int((b[12] >> 4) * 4)) == 0)
+
+//@ func (UDP).CalculateChecksum props C15 C06
+//@   requires cap(b) >= 8
+//@   ensures oc16(uint64(result)) == oc16(uint64(partialChecksum) + uint64(totalLen) + wsum16(b, 0, 8))
+//@   ensures (result == 0) == (uint64(partialChecksum) + uint64(totalLen) + wsum16(b, 0, 8) == 0)
+
+//@ func (TCP).EncodePartial props C15 C06
+//@   requires len(b) >= 18
+//@   ensures be32(b, 4) == seqnum && be32(b, 8) == acknum && b[13] == flags && be16(b, 14) == rcvwnd
+//@   ensures oc16(uint64(^be16(b, 16))) == oc16(uint64(partialChecksum) + uint64(length) + uint64(flags) + wsum16(b, 4, 12) + wsum16(b, 14, 16))
+//@   modifies elems(b[4:12]), b[13], b[14], b[15], b[16], b[17]
